@@ -165,6 +165,18 @@ CHECKS = {
              'fingerprints and known_hosts for parsed and constructed objects.',
         note='B is the whole certificate blob for certificates, as the property states.',
         design='3 (C16)'),
+    'C18': dict(
+        technique='grammar-based metamorphic testing: Hypothesis models of semantic values, a canonical speller, and '
+                  're-spellings along the dimensions the governing RFC text declares insignificant (name case, OWS/WSP, '
+                  'empty elements, order, token vs quoted-string, unknown directives); oracle = structural equality '
+                  'with the canonical parse; header blocks compared with an independent CRLF/colon split',
+        text='~69k (thorough ~1.1M) variants over 74 (type, dimension) pairs and 5 header-line dimensions for HSTS, '
+             'Expect-CT, Expect-Staple, HPKP, Cache-Control, Set-Cookie, Content-Type, X-XSS-Protection, CSP, NEL, '
+             'DMARC, MTA-STS, TLSRPT, SPF and the enum/date valued headers, plus ~1800 (29k) header blocks with '
+             'known/unknown/corrupted fields. A dimension is enabled only where the RFC sentence cited next to it in '
+             'vf/gen/textgen.py declares the variation insignificant.',
+        note='The table of enabled dimensions with citations is the soundness argument (DESIGN 3 C18).',
+        design='3 (C18)'),
     'C19': dict(
         technique='deterministic work metering with sys.monitoring (interpreter LINE events, frame depth) on scalable '
                   'input shapes at n, 2n, 4n, 8n: marginal-cost doubling test plus an absolute per-byte bound; generic '
